@@ -1294,7 +1294,7 @@ func (t *tScreen) buildAcsMap() {
 	exit := stripPadding(t.ti.ExitAcs)
 	for len(acsstr) > 2 {
 		srcv := acsstr[0]
-		dstv := string(acsstr[1])
+		dstv := acsstr[1:2] // the raw byte; string(byte) would UTF-8 encode values >= 0x80
 		if r, ok := vtACSNames[srcv]; ok {
 			t.acs[r] = enter + dstv + exit
 		}
